@@ -174,7 +174,7 @@ func main() {
 			default:
 				R.Class("fails: id <= 3", 1)
 			}
-			if m := runRecover(c.dg, c.r, c.s, v); m != "" {
+			if m := mc.Safe(func() string { return runRecover(c.dg, c.r, c.s, v) }); m != "" {
 				R.Mismatch(fmt.Sprintf("recover/%s/v&3=%d/v>3=%v", c.cls, v&3, v > 3), "recover", m, mc.D{"digest": mc.Hex(c.dg), "r": mc.HexBig(c.r), "s": mc.HexBig(c.s), "v": v, "class": c.cls})
 			}
 		}
